@@ -345,7 +345,8 @@ def run_zip(case, ctx):
         for workers, chunk in itertools.product([w for w in sc['workers'] if w > 1 and (len(case) < 3 or w == case[2])], sc['chunks']):
             cfg = sf.StoreConfig(read_max_workers=workers, read_chunksize=chunk, write_max_workers=workers, write_chunksize=chunk)
             info = dict(max_workers=workers, chunksize=chunk)
-            for fmt, to, frm in (('zip_pickle', 'to_zip_pickle', 'from_zip_pickle'), ('zip_csv', 'to_zip_csv', 'from_zip_csv'), ('zip_csv-per-label-config', 'to_zip_csv', 'from_zip_csv')):
+            for fmt, to, frm in (('zip_pickle', 'to_zip_pickle', 'from_zip_pickle'), ('zip_csv', 'to_zip_csv', 'from_zip_csv'), ('zip_csv-per-label-config', 'to_zip_csv', 'from_zip_csv'),
+                                 ('zip_csv-no-labels-written', 'to_zip_csv', 'from_zip_csv'), ('zip_tsv-no-index-written', 'to_zip_tsv', 'from_zip_tsv')):
                 cfgm = cfg if fmt == 'zip_pickle' else sf.StoreConfig(index_depth=1, read_max_workers=workers, read_chunksize=chunk, write_max_workers=workers, write_chunksize=chunk)
                 if fmt == 'zip_csv-per-label-config':
                     # every label has its own read configuration (the hierarchical frame needs index_depth=2); workers are set on all of them
@@ -356,6 +357,11 @@ def run_zip(case, ctx):
                 cfg1 = sf.StoreConfig(index_depth=1) if fmt != 'zip_pickle' else None
                 if fmt == 'zip_csv-per-label-config':
                     cfg1 = sf.StoreConfigMap({f.name: sf.StoreConfig(index_depth=f.index.depth) for f in frames_h}, default=sf.StoreConfig(index_depth=1))
+                if fmt in ('zip_csv-no-labels-written', 'zip_tsv-no-index-written'):
+                    # configurations whose non-default values are falsy (0, False): the workers must receive them as given
+                    kw_ = dict(index_depth=0, columns_depth=0, include_index=False, include_columns=False) if fmt.startswith('zip_csv') else dict(index_depth=0, columns_depth=1, include_index=False)
+                    cfg1 = sf.StoreConfig(**kw_)
+                    cfgm = sf.StoreConfig(read_max_workers=workers, read_chunksize=chunk, write_max_workers=workers, write_chunksize=chunk, **kw_)
 
                 def observe(b, through_pool):
                     # the archive's own label order (member order of the zip, as written) is part of the result; a multi-label read goes through the pool
